@@ -520,6 +520,7 @@ class FunctionVerifier:
         I.fn_contract = c
         I.extern = self.extern
         I.module_consts = getattr(self, 'module_consts', None)
+        I.module_defs = getattr(self, 'module_defs', None)
         I.name_prefix = c.qualname
         # parameters
         argnames = [a.arg for a in self.node.args.posonlyargs + self.node.args.args + self.node.args.kwonlyargs]
